@@ -24,6 +24,9 @@ RULE = ('S1: every assignment of a body from a generated menu (role leaf, '
         'status for policy files (missing, empty, rule sets from a reduced '
         'menu) x registered superset/not x an unparseable rule.  case = one '
         'rule set; non-trivial = at least one reference.')
+RULE += (
+         ' Every S1 rule set is validated again with'
+         ' Enforcer.skip_undefined_check on (problem iff cycle).')
 ASSUMPTIONS = ['names <= 4 (menu^names growth) instead of ~6; cycles up to '
                'length 4 plus chains entering them',
                'R-graph: iterative DFS with colours over edges taken from '
@@ -207,6 +210,24 @@ def run(job, seed):
                 ('raised' if raised else 'did not raise',
                  'a raise' if problem else 'no raise'), case, problem,
                 raised, 'S1')
+        # with undefined references declared acceptable by the service
+        # (Enforcer.skip_undefined_check) exactly the cycles are reported
+        enf.skip_undefined_check = True
+        try:
+            acc.ev()
+            try:
+                got_s = enf.check_rules()
+            except Exception as e:
+                got_s = 'raises %s' % type(e).__name__
+        finally:
+            enf.skip_undefined_check = False
+        if got_s != (not cyc):
+            acc.violation(
+                'S1|skip-undefined|%s' % ('missed' if cyc else 'false-alarm'),
+                'with skip_undefined_check on check_rules() returned %r; '
+                'graph analysis: undefined=%s cycle=%s' % (got_s, undefined,
+                                                           cyc),
+                dict(case, skip_undefined_check=True), not cyc, got_s, 'S1')
         acc.outcome('undefined=%s cycle=%s' % (undefined, cyc))
         if got is True:
             acc.case('S2', True)
